@@ -89,6 +89,19 @@ Definition solve (a b : qmat) : res qmat :=
   let cols := map (fun j => backward u (forward l (column pb j))) (seq 0 k) in
   Ok (map (fun i => map (fun c => nth i c 0%Q) cols) (seq 0 n)).
 
+(* the entry checks of solve: a must be a rank-2 square matrix with extents >= 2 (is_dim_supported(&[2]),
+   Array::is_square), the right-hand side must have as many rows (other.get_shape()?[0], which indexes: a rank-0
+   right-hand side would panic) *)
+Definition solve_checked (sa sb : list nat) (a b : qmat) : res qmat :=
+  if negb (length sa =? 2) then Err EUnsupDim else
+  let n := nth 0 sa 0 in
+  if (n <? 2) || (nth 1 sa 0 <? 2) then Err EAtLeast else
+  if negb (n =? nth 1 sa 0) then Err EEqual else
+  match sb with
+  | [] => Panic
+  | d :: _ => if negb (d =? n) then Err EEqual else solve a b
+  end.
+
 (* the defining equation, evaluated exactly *)
 Definition qlist_eqb (x y : list Q) : bool := (length x =? length y) && forallb (fun p => Qeq_bool (fst p) (snd p)) (combine x y).
 Definition residual_ok (a x b : qmat) : bool :=
